@@ -44,7 +44,7 @@ PROPS = {
         "assumptions": ["hash/crc32 Castagnoli = bitwise CRC-32C of Model/Bytes.lean (differential)"],
     },
     "C10": {
-        "suites": ["fault", "segment"],
+        "suites": ["fault", "segment", "crash"],
         "partial": "rollback of the writer after failed writes/fsyncs is a theorem about the byte-level model and is compared with the real writer under injected faults (segment suite); the WAL-level statement — every VFS/MetaStore call of a workload as the failing one, transient or persistent, followed by acknowledged appends and a reopen — is decided by the fault suite's ghost-state monitors on the real code (exhaustive over the calls of each generated workload; pairs of failures only through persistent faults)",
         "assumptions": ["reads do not fail", "a failing write lands a prefix of its bytes"],
     },
